@@ -48,8 +48,9 @@ impl IgnoreFilter {
 		let origin = origin.as_ref();
 
 		let mut ignores = Trie::new();
+		// same root entry as new(): keyed by the filesystem root, globs relative to the origin
 		ignores.insert(
-			origin.display().to_string(),
+			prefix(origin),
 			Ignore {
 				gitignore: Gitignore::empty(),
 				builder: Some(GitignoreBuilder::new(origin)),
